@@ -47,6 +47,14 @@ class Cap(logging.Handler):
         except Exception as e:  # noqa
             msg = "FORMAT-ERROR " + repr(e) + repr(r.msg) + repr(r.args)
         exc = logging.Formatter().formatException(r.exc_info) if r.exc_info else ""
+        # what travels with the record as objects counts too (handlers that serialise exceptions see it): the whole
+        # chain of the exception, suppressed context included, with the data codec errors carry
+        # (only for the library's own records: asyncio's "exception in callback" records chain to whatever exception the
+        #  harness itself was handling at that moment)
+        e, seen = (r.exc_info[1] if r.exc_info and r.name.startswith("aioftp") else None), 0
+        while e is not None and seen < 8:
+            exc += " | " + repr(e) + " " + repr(getattr(e, "object", ""))
+            e, seen = (e.__cause__ or e.__context__), seen + 1
         self.recs.append((r.name, r.levelname, msg, exc, repr(r.args) if r.args else ""))
 
 
